@@ -50,3 +50,17 @@ prop("C01", "Incremental replay applies every source write once, in order, in th
        "quick": {"checks": 480, "shards": 8, "timeout": 400},
        "thorough": {"checks": 24000, "shards": 16, "timeout": 3000}}],
      STREAM_ASSUME, max_inconclusive=0)
+
+CRASH_ASSUME = STREAM_ASSUME + ["crash model: the target executes a prefix of the requests it received (an open MULTI is discarded), the tool process dies with it; restart = fresh RedisOutput + start-up bookkeeping + StartPoint + channel bytes from the returned offset",
+                                "requests the stopped process had already written to its sockets are drained before the next run starts"]
+
+prop("C02", "A crash at any instant loses no source write; transactional mode repeats none", "fault_enumeration",
+     "a case = resume-enabled output configuration x stream (<=22 commands + sentinel, biased to transactions and SELECTs) x schedule; for each case an uncrashed run gives R = requests the target processed during Send, then EVERY fault point n in 1..R is executed twice: "
+     "'crash' (target stops after its n-th request, tool dies) and 'stop' (tool stopped gracefully at that instant), followed by a process restart that runs to the end sentinel (thorough: additionally a second crash in the resumed run for every third n). "
+     "evaluations = tool lives executed; fault_points = enumerated faults; non-trivial = a distinct case (sha1) in which at least one fault hit inside a target MULTI, between a batch and its checkpoint write, or right after a SELECT, and the stream has >=3 expected commands. "
+     "Oracle over the concatenated per-run target logs: resume offset is a command boundary inside the stream; run k's executed data commands equal the reference sequence from the resume point (command, args, DB); no gap (resume <= reached+1); "
+     "transactional mode: resume == reached+1 exactly (nothing twice, no fallback to 'none'); the last run reaches the end.",
+     [{"pkg": "c02", "test": "TestC02",
+       "quick": {"checks": 64, "shards": 16, "timeout": 600},
+       "thorough": {"checks": 1600, "shards": 16, "timeout": 5400}}],
+     CRASH_ASSUME)
